@@ -1,6 +1,7 @@
 package storetrace
 
 import (
+	"encoding/json"
 	"errors"
 	"context"
 	"fmt"
@@ -138,8 +139,9 @@ func traceConcStore(t *testing.T, o opts) {
 		var clock atomic.Int64
 		clock.Store(1_700_000_000)
 		tick := newFakeTicker()
+		sc := &slowCache{}
 		st, err := setec.NewStore(context.Background(), setec.StoreConfig{Client: g, Secrets: []string{"a", "b"}, AllowLookup: true,
-			Cache: setec.NewMemCache(""), ExpiryAge: 10 * time.Second, PollTicker: tick, Logf: func(string, ...any) {},
+			Cache: sc, ExpiryAge: 10 * time.Second, PollTicker: tick, Logf: func(string, ...any) {},
 			TimeNow: func() time.Time { return time.Unix(clock.Load(), 0) }})
 		if err != nil {
 			t.Fatal(err)
@@ -284,6 +286,7 @@ func traceConcStore(t *testing.T, o opts) {
 				}
 			}
 		}
+		cacheBehind := 0
 		windows, stalled := 0, 0
 		rounds := 6 + r.Intn(6)
 		for round := 0; round < rounds; round++ {
@@ -413,6 +416,18 @@ func traceConcStore(t *testing.T, o opts) {
 			close(g.gate)
 			<-done
 			<-lookDone
+			// everything has settled: the cache document is the store's current state - every secret
+			// with a handle is in it, at the version the handle yields
+			if doc := sc.doc(); doc != nil {
+				hmu.RLock()
+				for n := range handles {
+					base := strings.TrimSuffix(n, "'")
+					if i := readIdx(base); i >= 0 && doc[base] != i {
+						cacheBehind++
+					}
+				}
+				hmu.RUnlock()
+			}
 			g.gate = make(chan struct{})
 			time.Sleep(2 * time.Millisecond) // let a straggling older round finish
 			floorMu.Lock()
@@ -544,8 +559,8 @@ func traceConcStore(t *testing.T, o opts) {
 		afterClose := reads.Load() - afterBefore
 		close(stop)
 		wg.Wait()
-		emit("concstore\treaders=%d\treads=%d\tbad=%d\twrongname=%d\tnonmono=%d\twindows=%d\tstalled=%d\tpanics=%d\tafterclose=%d\tdropped_pinned=%d\tupd_bad=%d\tupd_nonmono=%d\tlookup_fail=%d\tmax_cond_waiting=%d\tstale_after_refresh=%d\tlate_flight_fail=%d\tlookup_panics=%d\tupd_e_stale=%d\tbelow_floor=%d\tnil_but_stale=%d\t%s",
-			nreaders, reads.Load(), bad.Load(), wrong.Load(), nonmono.Load(), windows, stalled, panics.Load(), afterClose, dropped, ubad.Load(), unonmono.Load(), lookupFail.Load(), g.maxCondWaiting.Load(), staleAfter, lateFlight, lookupPanics.Load(), updEStale, belowFloor, nilButStale, cu)
+		emit("concstore\treaders=%d\treads=%d\tbad=%d\twrongname=%d\tnonmono=%d\twindows=%d\tstalled=%d\tpanics=%d\tafterclose=%d\tdropped_pinned=%d\tupd_bad=%d\tupd_nonmono=%d\tlookup_fail=%d\tmax_cond_waiting=%d\tstale_after_refresh=%d\tlate_flight_fail=%d\tlookup_panics=%d\tupd_e_stale=%d\tbelow_floor=%d\tnil_but_stale=%d\tcache_behind=%d\t%s",
+			nreaders, reads.Load(), bad.Load(), wrong.Load(), nonmono.Load(), windows, stalled, panics.Load(), afterClose, dropped, ubad.Load(), unonmono.Load(), lookupFail.Load(), g.maxCondWaiting.Load(), staleAfter, lateFlight, lookupPanics.Load(), updEStale, belowFloor, nilButStale, cacheBehind, cu)
 	}
 }
 
@@ -630,4 +645,47 @@ func concUpdater(g *gateSvc, st *setec.Store) string {
 	}
 	mu.Unlock()
 	return fmt.Sprintf("cu_stale_get=%d\tcu_final=%d\tcu_cur_closed=%d\tcu_multi_close=%d", stale, final.idx-base, curClosed, multi)
+}
+
+
+// slowCache is a synchronised in-memory cache whose writes take a little while (a slow disk):
+// whoever writes outside the store's lock can be overtaken.
+type slowCache struct {
+	mu   sync.Mutex
+	data []byte
+}
+
+func (c *slowCache) Write(d []byte) error {
+	cp := append([]byte(nil), d...)
+	time.Sleep(time.Duration(50+len(d)%7*40) * time.Microsecond)
+	c.mu.Lock()
+	c.data = cp
+	c.mu.Unlock()
+	return nil
+}
+
+func (c *slowCache) Read() ([]byte, error) {
+	c.mu.Lock()
+	defer c.mu.Unlock()
+	return c.data, nil
+}
+
+// doc: name -> version index of the document last written (nil if unreadable)
+func (c *slowCache) doc() map[string]int {
+	c.mu.Lock()
+	data := c.data
+	c.mu.Unlock()
+	var raw map[string]struct {
+		Secret struct{ Value []byte } `json:"secret"`
+	}
+	if json.Unmarshal(data, &raw) != nil {
+		return nil
+	}
+	out := map[string]int{}
+	for n, e := range raw {
+		_, idx, _ := strings.Cut(string(e.Secret.Value), "#")
+		i, _ := strconv.Atoi(idx)
+		out[n] = i
+	}
+	return out
 }
